@@ -773,6 +773,100 @@ class FunctionFlow:
             self._caught_cache[k] = hit
         return hit
 
+    # ----------------------------------------------------- reaching defs
+    def _node_defs(self) -> dict[int, dict[str, ast.AST]]:
+        """node id -> {name: defining statement} for plain-name bindings made by the node."""
+        if hasattr(self, "_ndefs"):
+            return self._ndefs  # type: ignore[has-type]
+        out: dict[int, dict[str, ast.AST]] = {}
+
+        def names(t: ast.AST) -> list[str]:
+            if isinstance(t, ast.Name):
+                return [t.id]
+            if isinstance(t, (ast.Tuple, ast.List)):
+                return [x for e in t.elts for x in names(e.value if isinstance(e, ast.Starred) else e)]
+            return []
+
+        for n in self.nodes:
+            st = n.stmt
+            d: dict[str, ast.AST] = {}
+            if n.kind == "stmt":
+                if isinstance(st, ast.Assign):
+                    for t in st.targets:
+                        for nm in names(t):
+                            d[nm] = st
+                elif isinstance(st, (ast.AnnAssign, ast.AugAssign)) and isinstance(st.target, ast.Name):
+                    if not (isinstance(st, ast.AnnAssign) and st.value is None):
+                        d[st.target.id] = st
+                elif isinstance(st, (ast.With, ast.AsyncWith)):
+                    for it in st.items:
+                        if it.optional_vars is not None:
+                            for nm in names(it.optional_vars):
+                                d[nm] = st
+            elif n.kind == "test" and isinstance(st, (ast.For, ast.AsyncFor)):
+                for nm in names(st.target):
+                    d[nm] = st
+            elif n.kind == "handler" and isinstance(st, ast.ExceptHandler) and st.name:
+                d[st.name] = st
+            if d:
+                out[n.id] = d
+        self._ndefs = out
+        return out
+
+    def reaching_defs(self, nid: int, name: str) -> set:
+        """Definitions of ``name`` that may reach the *start* of node ``nid``:
+        a set of statements, plus the string 'param' / 'undef' for the entry value."""
+        key = name
+        cache = getattr(self, "_rd_cache", None)
+        if cache is None:
+            cache = self._rd_cache = {}
+        if key not in cache:
+            nd = self._node_defs()
+            IN: dict[int, frozenset] = {n.id: frozenset() for n in self.nodes}
+            OUT: dict[int, frozenset] = {n.id: frozenset() for n in self.nodes}
+            entry_val = frozenset({"param" if self.ctx.is_param(name) else "undef"})
+            changed = True
+            while changed:
+                changed = False
+                for n in self.nodes:
+                    if n.id == self.entry.id:
+                        i = entry_val
+                    else:
+                        i = frozenset().union(*(OUT[p] for p in n.pred)) if n.pred else frozenset()
+                    d = nd.get(n.id, {}).get(name)
+                    o = frozenset({d}) if d is not None else i
+                    if i != IN[n.id] or o != OUT[n.id]:
+                        IN[n.id] = i
+                        OUT[n.id] = o
+                        changed = True
+            cache[key] = IN
+        return set(cache[key][nid])
+
+    def node_of(self, target: ast.AST) -> Optional[Node]:
+        """CFG node whose statement/test contains ``target``."""
+        idx = getattr(self, "_node_index", None)
+        if idx is None:
+            idx = self._node_index = {}
+            for n in self.nodes:
+                st = n.stmt
+                if st is None:
+                    continue
+                if n.kind == "test":
+                    hdr = getattr(st, "test", None) or getattr(st, "iter", None) or getattr(st, "subject", None)
+                    roots = [hdr] if hdr is not None else []
+                elif n.kind == "stmt" and isinstance(st, (ast.With, ast.AsyncWith)):
+                    roots = [it.context_expr for it in st.items]
+                elif n.kind in ("handler", "join"):
+                    roots = []
+                elif isinstance(st, (ast.FunctionDef, ast.AsyncFunctionDef, ast.ClassDef)):
+                    roots = []
+                else:
+                    roots = [st]
+                for r in roots:
+                    for sub in ast.walk(r):
+                        idx.setdefault(id(sub), n)
+        return idx.get(id(target))
+
     def all_events(self) -> Iterable[tuple[Node, int, Event]]:
         for n in self.nodes:
             for i, e in enumerate(n.events):
